@@ -39,14 +39,22 @@ type Case struct {
 	// from 256 after every restart); its one record is PriorRec.
 	Prior    []ref.Field `json:"prior,omitempty"`
 	PriorRec []ref.Value `json:"prior_rec,omitempty"`
+	// Second (udp, dtls): a second template (id ID^1) with these other elements is sent after the
+	// first, then one template-refresh round runs (the body of the refresh tick) before the data:
+	// every template message delivered must carry the layout that was sent under its id, and the
+	// data is decoded after the refresh.
+	Second []ref.Field `json:"second,omitempty"`
+	// Reuse: the application writes every record into one long-lived list of element objects
+	// (setters; ResetValue for empty values) and one set object; one record per set.
+	Reuse bool `json:"reuse,omitempty"`
 }
 
 var (
-	rec      *ev.Recorder
-	pool     []ref.Field
-	ca       *glue.CA
-	srvCert  glue.Leaf
-	cliCert  glue.Leaf
+	rec     *ev.Recorder
+	pool    []ref.Field
+	ca      *glue.CA
+	srvCert glue.Leaf
+	cliCert glue.Leaf
 )
 
 func TestMain(m *testing.M) {
@@ -198,8 +206,28 @@ func runCase(c Case) (*ev.Failure, bool) {
 	if f := send("template", func() (entities.Set, error) { return exph.TemplateSet(c.ID, c.Fields, c.Path%4) }); f != nil {
 		return f, true
 	}
+	refreshing := len(c.Second) > 0 && (c.Transport == "udp" || c.Transport == "dtls")
+	id2 := c.ID ^ 1
+	if refreshing {
+		if f := send("second template", func() (entities.Set, error) { return exph.TemplateSet(id2, c.Second, (c.Path+1)%4) }); f != nil {
+			return f, true
+		}
+		if err := ep.VerifSendRefreshedTemplates(); err != nil {
+			return ev.Failf("template refresh round over %s failed: %v", c.Transport, err), true
+		}
+	}
+	var reusedEls []entities.InfoElementWithValue
+	reusedSet := entities.NewSet(false)
+	if c.Reuse {
+		reusedEls = exph.NewElements(c.Fields)
+	}
 	for i, recs := range c.Sets {
-		if f := send(fmt.Sprintf("data set %d (%d records)", i, len(recs)), func() (entities.Set, error) { return exph.DataSet(c.ID, c.Fields, recs, c.Path%3) }); f != nil {
+		if f := send(fmt.Sprintf("data set %d (%d records)", i, len(recs)), func() (entities.Set, error) {
+			if c.Reuse && len(recs) == 1 {
+				return exph.DataSetReusing(reusedSet, reusedEls, c.ID, c.Fields, recs, c.Path%4)
+			}
+			return exph.DataSet(c.ID, c.Fields, recs, c.Path%3)
+		}); f != nil {
 			return f, true
 		}
 	}
@@ -209,6 +237,9 @@ func runCase(c Case) (*ev.Failure, bool) {
 	}
 	// wait for the sentinel
 	want := 2 + len(c.Sets)
+	if refreshing {
+		want += 3 // the second template and the two refreshed templates
+	}
 	deadline := time.Now().Add(30 * time.Second)
 	var got []*entities.Message
 	for {
@@ -236,38 +267,50 @@ func runCase(c Case) (*ev.Failure, bool) {
 		}
 		return ev.Failf("over %s the collector delivered %d messages, the exporter was given %d sets", c.Transport, len(got), want), true
 	}
-	// template
-	tm := got[0]
-	if tm.GetObsDomainID() != c.Domain {
-		return ev.Failf("observation domain %d delivered, %d configured", tm.GetObsDomainID(), c.Domain), true
+	// templates: the first message is the template; every template message delivered (the
+	// refresh round retransmits) carries the layout that was sent under its id
+	layouts := map[uint16][]ref.Field{c.ID: c.Fields, sentinelID: sf}
+	if refreshing {
+		layouts[id2] = c.Second
 	}
-	if tm.GetSet().GetSetType() != entities.Template || len(tm.GetSet().GetRecords()) != 1 {
-		return ev.Failf("first delivered message is not the template"), true
+	if tm := got[0]; tm.GetSet().GetSetType() != entities.Template || len(tm.GetSet().GetRecords()) != 1 || tm.GetSet().GetRecords()[0].GetTemplateID() != c.ID {
+		return ev.Failf("first delivered message is not the template %d", c.ID), true
 	}
-	tr := tm.GetSet().GetRecords()[0]
-	if tr.GetTemplateID() != c.ID {
-		return ev.Failf("template id %d delivered, %d sent", tr.GetTemplateID(), c.ID), true
-	}
-	els := tr.GetOrderedElementList()
-	if len(els) != len(c.Fields) {
-		return ev.Failf("template delivered with %d fields, %d sent", len(els), len(c.Fields)), true
-	}
-	for i, el := range els {
-		ie, f := el.GetInfoElement(), c.Fields[i]
-		if ie.ElementId != f.ID || ie.EnterpriseId != f.Ent || ie.DataType != glue.LibType(f.Type) || ie.Len != f.Len || ie.Name != f.Name {
-			return ev.Failf("template field %d delivered as (id %d, enterprise %d, type %d, len %d, %q), sent (id %d, enterprise %d, type %d, len %d, %q)", i,
-				ie.ElementId, ie.EnterpriseId, ie.DataType, ie.Len, ie.Name, f.ID, f.Ent, glue.LibType(f.Type), f.Len, f.Name), true
+	var dataMsgs []*entities.Message
+	for k, m := range got {
+		if m.GetObsDomainID() != c.Domain {
+			return ev.Failf("message %d: observation domain %d delivered, %d configured", k, m.GetObsDomainID(), c.Domain), true
 		}
+		if m.GetSet().GetSetType() != entities.Template {
+			dataMsgs = append(dataMsgs, m)
+			continue
+		}
+		if len(m.GetSet().GetRecords()) != 1 {
+			return ev.Failf("message %d: template set delivered with %d records", k, len(m.GetSet().GetRecords())), true
+		}
+		tr := m.GetSet().GetRecords()[0]
+		fields, ok := layouts[tr.GetTemplateID()]
+		if !ok {
+			return ev.Failf("message %d: template id %d delivered, no template with that id was sent", k, tr.GetTemplateID()), true
+		}
+		els := tr.GetOrderedElementList()
+		if len(els) != len(fields) {
+			return ev.Failf("message %d: template %d delivered with %d fields, %d sent", k, tr.GetTemplateID(), len(els), len(fields)), true
+		}
+		for i, el := range els {
+			ie, f := el.GetInfoElement(), fields[i]
+			if ie.ElementId != f.ID || ie.EnterpriseId != f.Ent || ie.DataType != glue.LibType(f.Type) || ie.Len != f.Len || ie.Name != f.Name {
+				return ev.Failf("message %d: template %d field %d delivered as (id %d, enterprise %d, type %d, len %d, %q), sent (id %d, enterprise %d, type %d, len %d, %q)", k, tr.GetTemplateID(), i,
+					ie.ElementId, ie.EnterpriseId, ie.DataType, ie.Len, ie.Name, f.ID, f.Ent, glue.LibType(f.Type), f.Len, f.Name), true
+			}
+		}
+	}
+	if len(dataMsgs) != len(c.Sets) {
+		return ev.Failf("%d data sets delivered, %d sent", len(dataMsgs), len(c.Sets)), true
 	}
 	// data
 	for si, recs := range c.Sets {
-		dm := got[1+si]
-		if dm.GetObsDomainID() != c.Domain {
-			return ev.Failf("data set %d: observation domain %d delivered, %d configured", si, dm.GetObsDomainID(), c.Domain), true
-		}
-		if dm.GetSet().GetSetType() != entities.Data {
-			return ev.Failf("message %d delivered is not a data set", 1+si), true
-		}
+		dm := dataMsgs[si]
 		dr := dm.GetSet().GetRecords()
 		if len(dr) != len(recs) {
 			return ev.Failf("data set %d: %d records delivered, %d sent", si, len(dr), len(recs)), true
@@ -340,6 +383,12 @@ func genCase(t *rapid.T) Case {
 		}
 		c.PriorRec = gen.Record(t, c.Prior, 20)
 	}
+	if (c.Transport == "udp" || c.Transport == "dtls") && rapid.IntRange(0, 2).Draw(t, "second") == 0 {
+		for k := rapid.IntRange(1, 6).Draw(t, "nf2"); k > 0; k-- {
+			c.Second = append(c.Second, pool[rapid.IntRange(0, len(pool)-1).Draw(t, "f2")])
+		}
+	}
+	c.Reuse = rapid.IntRange(0, 3).Draw(t, "reuse") == 0
 	limit := maxMessage(c.Transport, c.V6)
 	if c.Transport == "dtls" && rapid.IntRange(0, 4).Draw(t, "dtlsbig") == 0 {
 		limit = 65535 // the open-finding class D10 (excluded from the oracle while the finding is open)
@@ -400,6 +449,16 @@ func genCase(t *rapid.T) Case {
 				break
 			}
 		}
+		if c.Reuse && len(recs) > 0 {
+			// one record per set; optional fields left empty in some records (the reused element
+			// is reset, not set)
+			recs = recs[len(recs)-1:]
+			for fi, f := range c.Fields {
+				if f.Len == ref.VarLen && rapid.IntRange(0, 3).Draw(t, "empty") == 0 {
+					recs[0][fi].B = nil
+				}
+			}
+		}
 		if len(recs) > 0 {
 			c.Sets = append(c.Sets, recs)
 		}
@@ -432,7 +491,7 @@ func classify(c Case) (bool, []string, int) {
 			maxMsg = size
 		}
 	}
-	for k, b := range map[string]bool{"enterprise_element": ent, "length_254_255_256": boundary, "multi_record": nrec >= 2, "message_at_transport_maximum": maxMsg == maxMessage(c.Transport, c.V6), "message_over_60000": maxMsg > 60000, "template_id_reused_by_a_later_session": len(c.Prior) > 0} {
+	for k, b := range map[string]bool{"enterprise_element": ent, "length_254_255_256": boundary, "multi_record": nrec >= 2, "message_at_transport_maximum": maxMsg == maxMessage(c.Transport, c.V6), "message_over_60000": maxMsg > 60000, "template_id_reused_by_a_later_session": len(c.Prior) > 0, "refresh_round_with_two_templates": len(c.Second) > 0, "application_reuses_its_element_objects": c.Reuse} {
 		if b {
 			cl = append(cl, k)
 		}
@@ -545,4 +604,3 @@ func TestC01(t *testing.T) {
 		return f
 	})
 }
-
